@@ -108,6 +108,7 @@ def transit_cases(draw):
     c = draw(hint_lists())
     c["role"] = draw(st.sampled_from(["sender", "receiver"]))
     c["no_listen"] = draw(st.booleans())
+    c["own_relay"] = draw(st.booleans())       # this side has a transit relay of its own configured
     return c
 
 
@@ -313,9 +314,11 @@ def run_transit(c, res):
     try:
         node = W.node("victim")
         cls_ = transit.TransitSender if c["role"] == "sender" else transit.TransitReceiver
-        t = cls_(None, no_listen=c["no_listen"], reactor=node)
+        own_relay = "tcp:ownrelay.example:4001" if c.get("own_relay") else None
+        t = cls_(own_relay, no_listen=c["no_listen"], reactor=node)
         t.set_transit_key(b"k" * 32)
-        t.get_connection_hints()
+        pub0, pub1 = [], []
+        t.get_connection_hints().addCallback(pub0.append)
         hints = [h for h in c["hints"] if isinstance(h, dict)]
         classes, nvalid = classify(hints)
         try:
@@ -327,6 +330,18 @@ def run_transit(c, res):
             return
         if c["nonobj"]:
             res.notes["lists_with_nonobject_elements"] += 1
+        # what this side publishes describes this side (its listener, its configured relay): it is the same
+        # before and after the peer's hints were added
+        try:
+            t.get_connection_hints().addCallback(pub1.append)
+        except Exception as ex:
+            res.violate("no-raise", "get_connection_hints() raised %r after hints %s" % (ex, _canon(hints)),
+                        input_class="get_connection_hints:%s" % "+".join(sorted(classes)), exc=type(ex).__name__)
+            return
+        if pub0 and pub1 and _canon(pub0[0]) != _canon(pub1[0]):
+            res.violate("publish", "published hints changed after the peer's hints were added: before %s, after %s; peer "
+                        "hints %s" % (_canon(pub0[0]), _canon(pub1[0]), _canon(hints)),
+                        input_class="published-hints-depend-on-peer-hints")
         out = []
         try:
             d = t.connect()
@@ -338,6 +353,8 @@ def run_transit(c, res):
             return
         W.settle(max_steps=400, max_time=40.0)
         want = ref_targets(hints)
+        if own_relay:
+            want = want | {("ownrelay.example", 4001)}
         got = W.net.dial_targets("victim")
         if out:
             r = out[0]
